@@ -100,6 +100,8 @@ func runHistory(sp spec, tmp string) (res *result, err error) {
 		h.directedBelowOldThreshold()
 	case "d-joiner-key-swap":
 		h.directedJoinerKeySwap()
+	case "d-timeout-abandon":
+		h.directedTimeoutAbandon()
 	case "gen":
 		for k := 0; k < 2+h.rng.Intn(2) && !h.cut; k++ {
 			h.attempt()
@@ -260,6 +262,43 @@ func (h *hist) directedShadowJoiner() {
 		h.packet(1, h.forged(1, "execute", leader, leader), "execute by the leader (own key)", "leader")
 	} else {
 		h.packet(1, h.forged(1, "abort", leader, leader), "abort by the leader (own key)", "leader")
+	}
+}
+
+// a timed-out attempt must be abandonable: finished epoch N, proposal N+1 with a short timeout is
+// made (accepted by a member, joined by a joiner), the clock passes the timeout, then the abort by
+// command (leader and a member that does not get the packet) and the leader's Abort packet must
+// succeed (aborts never consult the clock), and a fresh proposal for N+1 must be accepted everywhere.
+func (h *hist) directedTimeoutAbandon() {
+	h.fabricate([]int{0, 1, 2}, 2, uint32(1+h.rng.Intn(3)))
+	s := reshareSpec{leader: 0, remaining: []int{0, 1, 2}, joining: []int{3}, thr: 3}
+	c := h.reshareCmd(s, "")
+	to := time.Now().Add(1300 * time.Millisecond)
+	c.GetResharing().Timeout = timestamppb.New(to)
+	_, prop := h.command(0, c, "cmd-reshare (short timeout)", "leader", false)
+	for _, i := range []int{1, 2, 3} {
+		h.packet(i, prop, "proposal", "leader")
+	}
+	h.command(1, simpleCmd("accept"), "cmd-accept", "member", false)
+	h.command(3, h.joinCmd("group"), "cmd-join:group", "joiner", false)
+	if d := time.Until(to.Add(400 * time.Millisecond)); d > 0 {
+		time.Sleep(d)
+	}
+	_, ab := h.command(0, simpleCmd("abort"), "cmd-abort after the timeout (leader)", "leader", false)
+	h.command(2, simpleCmd("abort"), "cmd-abort after the timeout (member)", "member", false)
+	if ab == nil && !h.cut {
+		// the leader could not abort: sign the Abort it would have sent (over its current terms)
+		ab = h.forged(0, "abort", h.w.ids[0], h.w.ids[0])
+	}
+	for _, i := range []int{1, 3} {
+		h.packet(i, ab, "abort by the leader after the timeout", "leader")
+	}
+	_, prop2 := h.command(0, h.reshareCmd(s, ""), "retry-after-timeout: cmd-reshare", "leader", false)
+	if prop2 == nil && !h.cut {
+		return
+	}
+	for _, i := range []int{1, 2, 3} {
+		h.packet(i, prop2, "retry-after-timeout: proposal", "leader")
 	}
 }
 
@@ -497,7 +536,7 @@ func Run(name, prop string) func(outDir string, seed int64, tier string) error {
 				specs = append(specs, spec{id: len(specs), kind: kind, seed: rng.Int63()})
 			}
 		}
-		for _, wk := range []string{"w-fresh-epoch", "w-left-panic", "w-key-subst", "w-nonleader-exec", "w-nil-leader", "w-unsigned-key", "w-member-epoch", "d-exec-setup", "d-shadow-joiner", "d-below-old-thr", "d-joiner-key-swap", "d-joiner-key-swap"} {
+		for _, wk := range []string{"w-fresh-epoch", "w-left-panic", "w-key-subst", "w-nonleader-exec", "w-nil-leader", "w-unsigned-key", "w-member-epoch", "d-exec-setup", "d-shadow-joiner", "d-below-old-thr", "d-joiner-key-swap", "d-joiner-key-swap", "d-timeout-abandon"} {
 			add(wk, 1)
 		}
 		nGen, nFab, nKy, nSleep := 24, 44, 5, 4
